@@ -837,4 +837,47 @@ MUTANTS += [
      "expect": [("C16", "C16|R3")]},
 ]
 
+MUTANTS += [
+    {"name": "c20-open-writer-truncates",
+     "edits": [("src/wal/storage.rs",
+                """OpenOptions::new().create(true).append(true).open(&path)""",
+                """OpenOptions::new().create(true).write(true).truncate(true).open(&path)""")],
+     "expect": [("C20", "C20|R1")]},
+    {"name": "c20-version-restarts-after-replay",
+     "edits": [("src/wal/manager.rs",
+                """        self.next_op_version = match highest_op_version {
+            Some(v) => v.saturating_add(1),
+            None => FIRST_OP_VERSION,
+        };""",
+                """        let _ = highest_op_version;
+        self.next_op_version = FIRST_OP_VERSION;""")],
+     "expect": [("C20", "C20|R2"), ("C14", "C14|R6")]},
+    {"name": "c20-writer-for-next-segment",
+     "edits": [("src/wal/manager.rs",
+                """            self.active_writer = Some(self.storage.open_writer(target_segment_id)?);""",
+                """            self.active_writer = Some(self.storage.open_writer(target_segment_id + 1)?);""")],
+     "expect": [("C20", "C20|R3")]},
+    {"name": "c20-prune-including-bound",
+     "edits": [("src/wal/storage.rs",
+                """            if segment.id < checkpointed_segment_id {""",
+                """            if segment.id <= checkpointed_segment_id {""")],
+     "expect": [("C20", "C20|R5")]},
+    {"name": "c20-seal-on-drop",
+     "edits": [("src/wal/manager.rs",
+                """            && let Err(e) = writer.close()""",
+                """            && let Err(e) = writer.seal()""")],
+     "expect": [("C20", "C20|R6")]},
+    {"name": "c20-checksum-of-version",
+     "edits": [("src/wal/manager.rs",
+                """        let op_hash = calculate_blob_hash(op_data);""",
+                """        let op_hash = calculate_blob_hash(&version.get().to_le_bytes());""")],
+     "expect": [("C20", "C20|R3")]},
+    {"name": "c20-prune-bound-from-next-version",
+     "edits": [("src/wal/manager.rs",
+                """        let last_checkpointed_segment = self.segment_id_for_op_version(version.get());""",
+                """        let _ = version;
+        let last_checkpointed_segment = self.segment_id_for_op_version(self.next_op_version.get());""")],
+     "expect": [("C20", "C20|R5")]},
+]
+
 BENIGN = []
